@@ -777,6 +777,60 @@ def internal_return_check(rec):
     return None
 
 
+def ir_steps(rec):
+    """decomposition of an InternalReturn invocation into steps each of which has a proved checker: chains of forwarded copies
+    (X <- R; D <- X, both removed) become  f -> fa (D <- R: check_func R1) -> fb (X <- R removed: dead_check) -> f' (ir_check)"""
+    import copy
+    b, a = rec["before"], rec["after"]
+    defs = b.defs()
+    cps = []
+    for bi, j, x, y in (changes(rec) or []):
+        if x[0] == "mcopy" and y[0] == "nop" and len(x[1]) == 3 and x[1][0][0] == "lit":
+            rd, rs = b.root(x[1][2], defs), b.root(x[1][1], defs)
+            cps.append({"pos": (bi, j), "x": x, "y": y, "d": b.names["alloca"].get(rd[1], -1) if rd[0] == "var" else -1,
+                        "r": b.names["alloca"].get(rs[1], -2) if rs[0] == "var" else -2, "n": x[1][0][1], "src": x[1][1]})
+    by_d = {c["d"]: c for c in cps}
+    inter = {c["r"] for c in cps if c["r"] in by_d and by_d[c["r"]]["pos"][0] == c["pos"][0] and by_d[c["r"]]["pos"][1] < c["pos"][1]}
+
+    def eff(c, depth=0):
+        if c["r"] in inter and depth < 8:
+            return eff(by_d[c["r"]], depth + 1)
+        return c["r"], c["src"]
+    steps = []
+    base = b
+    if inter:
+        fa = copy.copy(b)
+        fa.blocks = [list(blk) for blk in b.blocks]
+        for c in cps:
+            if c["r"] in inter:
+                bi, j = c["pos"]
+                op, ops, outs, wm, wrd, aid = c["x"]
+                fa.blocks[bi][j] = (op, [ops[0], eff(c)[1], ops[2]], outs, wm, wrd, aid)
+        fb = copy.copy(fa)
+        fb.blocks = [list(blk) for blk in fa.blocks]
+        for c in cps:
+            if c["d"] in inter:
+                bi, j = c["pos"]
+                fb.blocks[bi][j] = c["y"]
+        steps += [("cf", b, fa), ("dead", fa, fb, sorted(inter))]
+        base = fb
+    Pp = [(c["d"], eff(c)[0], c["n"]) for c in cps if c["d"] not in inter]
+    rets = {p[1] for p in Pp}
+    # the return-buffer annotation only on the invokes that fill a return buffer of P
+    for sn in {id(x): x for x in (b, a, base)}.values():
+        for key, ann in list(sn.ann.items()):
+            ops = sn.blocks[key[0]][key[1]][1]
+            new = []
+            for o, an in zip(ops, ann):
+                if an == ("lab", 0):
+                    rt = b.root(o, defs)
+                    an = an if (rt[0] == "var" and b.names["alloca"].get(rt[1]) in rets) else None
+                new.append(an)
+            sn.ann[key] = new
+    steps.append(("ir", base, a, Pp, renamed_vars({"before": base, "after": a})))
+    return steps
+
+
 def renamed_vars(rec):
     """variables that hold a pointer into a destination in f and into the return buffer in f': outputs of assign / add
     with a substituted operand, closed under assign / add"""
@@ -814,6 +868,26 @@ def evaluate(recs, name="c14c", rounds=8):
             h, D = r["dead_step"]
             hh = "g" if r.get("dead_only") else f"({h.c_func()})"
             dead = f"(let h := {hh} in if dead_check C [{'; '.join(str(d) for d in D)}] g h then 1 else 0)"
+        if r.get("steps") is not None:
+            snaps, binds, checks = {}, [], []
+
+            def nm(sn):
+                if id(sn) not in snaps:
+                    snaps[id(sn)] = f"f{len(snaps)}"
+                    binds.append(f"let {snaps[id(sn)]} := {sn.c_func()} in ")
+                return snaps[id(sn)]
+            for st in r["steps"]:
+                if st[0] == "cf":
+                    a_, b_ = nm(st[1]), nm(st[2])
+                    checks.append(f"(if check_func C (infer_entry C {a_} {max(rounds, len(st[1].blocks) + 1)}) {a_} {b_} then 1 else 0)")
+                elif st[0] == "dead":
+                    checks.append(f"(if dead_check C [{'; '.join(str(d) for d in st[3])}] {nm(st[1])} {nm(st[2])} then 1 else 0)")
+                else:
+                    Pp, RN = st[3], st[4]
+                    checks.append(f"(if ir_check C [{'; '.join(f'({d}, {rr}, {n})' for d, rr, n in Pp)}] [{'; '.join(f'{x}%N' for x in RN)}] "
+                                  f"{nm(st[1])} {nm(st[2])} then 1 else 0)")
+            exprs.append(f"(let C := {c_certs(C)} in " + "".join(binds) + "[" + "; ".join(checks) + "])")
+            continue
         if r.get("dead_only"):
             Pp, RN = r["ir_args"]
             ir = (f"(if ir_check C [{'; '.join(f'({d}, {rr}, {n})' for d, rr, n in Pp)}] [{'; '.join(f'{x}%N' for x in RN)}] "
@@ -956,18 +1030,7 @@ def part_copy_passes(ctx):
             if r["ir"] is not None:
                 verdict[i] = "rejected"
                 continue
-            # verified part: in f' the destination allocations are dead (dead_check f' f': by dead_copy_sound no instruction
-            # of f' can observe them, so leaving them unwritten is invisible)
-            defs_ = r["before"].defs()
-            D = sorted({r["before"].names["alloca"].get(r["before"].root(x[1][2], defs_)[1], -1) for _, _, x, y in (changes(r) or [])
-                        if x[0] == "mcopy" and y[0] == "nop" and r["before"].root(x[1][2], defs_)[0] == "var"})
-            Pp = []
-            for _, _, x, y in (changes(r) or []):
-                if x[0] == "mcopy" and y[0] == "nop":
-                    rd, rs = r["before"].root(x[1][2], defs_), r["before"].root(x[1][1], defs_)
-                    Pp.append((r["before"].names["alloca"].get(rd[1], -1), r["before"].names["alloca"].get(rs[1], -2), x[1][0][1]))
-            r["pair"] = {"before": r["after"], "after": r["after"], "dead_step": (r["after"], D), "dead_only": True,
-                         "ir_args": (Pp, renamed_vars(r)), "ir_before": r["before"]}
+            r["pair"] = {"before": r["before"], "after": r["after"], "steps": ir_steps(r)}
             todo.append(i)
             continue
         if why is None:
@@ -980,18 +1043,17 @@ def part_copy_passes(ctx):
             outs = evaluate([recs[i]["pair"] for i in todo])
             for i, o in zip(todo, outs):
                 r = recs[i]
-                ok = o[0] == 1 and o[3] == 1 and not r.get("dead") and not r.get("recheck_bad")
+                ok = r["pass"] != IR and o[0] == 1 and o[3] == 1 and not r.get("dead") and not r.get("recheck_bad")
                 if r["pass"] == IR:
-                    ok = o[4] == 1
-                    r["why"]["ir_check"] = o[4]
-                    r["why"]["dead_check_f'"] = o[3]
+                    ok = all(v == 1 for v in o)
+                    r["why"] = {"internal_return_check": None, "steps": [st[0] for st in r["pair"]["steps"]], "results": list(o)}
                 verdict[i] = "accepted" if ok else "rejected"
                 if r["pass"] == IR and not ok:
                     # internal_return_check (Python) accepted: the instance is outside the domain of the proved checker
                     why = "outside ir_check (chain of forwarded buffers, or a derived pointer used outside the block / before its definition)"
                     verdict[i] = "unsupported"
                     stats["unsupported_reasons"][why] = stats["unsupported_reasons"].get(why, 0) + 1
-                if o[0] != 1 and o[3] == 1 and r["pass"] == RO and not r.get("dead") and not r.get("recheck_bad"):
+                if r["pass"] == RO and o[0] != 1 and o[3] == 1 and not r.get("dead") and not r.get("recheck_bad"):
                     # domain limit of the certificates: the source of a staging copy is a phi of pointers into different
                     # allocations (or a multiply defined variable): no region is known for it
                     C = certificates(r["before"])
@@ -1002,13 +1064,14 @@ def part_copy_passes(ctx):
                         why = "source of the staging copy has no pointer certificate (phi of different allocations)"
                         verdict[i] = "unsupported"
                         stats["unsupported_reasons"][why] = stats["unsupported_reasons"].get(why, 0) + 1
-                r["why"] = {"check_func": o[0], "certs_ok": o[1], "blocks_ok": o[2], "dead_check": o[3], "dead_copy_check": r.get("dead"),
-                            "readonly_recheck_failures": {f"{k[0]}#{k[1]}": v for k, v in r.get("recheck_bad", {}).items()}}
+                if r["pass"] != IR:
+                    r["why"] = {"check_func": o[0], "certs_ok": o[1], "blocks_ok": o[2], "dead_check": o[3], "dead_copy_check": r.get("dead"),
+                                "readonly_recheck_failures": {f"{k[0]}#{k[1]}": v for k, v in r.get("recheck_bad", {}).items()}}
         except RuntimeError as e:
             ctx.violation("correspondence-broken", "check_func could not be evaluated on the exported invocations", {"error": str(e)[-1500:]})
     stats["validated_by"] = {"MemoryCopyElisionPass": "check_func (copyfwd_check_sound)", RO: "check_func rule R4 (copyfwd_check_sound under ro_uniform) + "
-                             "dead_check (dead_copy_sound under oracle_local) + readonly_recheck (syntactic, unverified)", IR: "ir_check (internal_return_sound under oracle_ren, bounded semantics); internal_return_check (Python) "
-                             "as a pre-filter"}
+                             "dead_check (dead_copy_sound under oracle_local) + readonly_recheck (syntactic, unverified)", IR: "internal_return_check (Python) as a pre-filter, then ir_check (internal_return_sound under oracle_ren, bounded "
+                             "semantics); chains of forwarded copies via check_func R1 + dead_check + ir_check"}
     stats["readonly_facts_rechecked"] = sum(r.get("recheck_used", 0) for r in recs)
     t2 = time.time()
     entries = {c["name"]: c for c in progs}
